@@ -158,6 +158,7 @@ POOL = {
     "NestedError": Outer.NestedError,
     "UnicodeDecodeError": UnicodeDecodeError,
     "RemoteError": RemoteError,
+    "OddSyntaxError": SyntaxError,
 }
 
 
@@ -178,6 +179,12 @@ def make(name, tag):
                 raise ChainedError("boom %s" % tag) from k
         except ChainedError as e:
             return e
+    if name == "OddSyntaxError":
+        # a SyntaxError as raised by application-level parsers: its details tuple holds a bytes line, a non-integer offset or a
+        # non-string text, which the traceback module cannot render
+        k = sum(map(ord, str(tag))) % 3
+        details = [("<config>", 1, 7, b"f(1, 2\n"), ("<config>", 1, "7", "f(1, 2\n"), ("<config>", 1, 1, 12345)][k]
+        return SyntaxError("boom %s" % tag, details)
     if cls is NoArgsError:
         return cls()
     if cls is NonStrArgs:
